@@ -61,11 +61,12 @@ MUX = {
     ),
     "C08": dict(
         title="connection end resolves everything, local drop flushes",
-        mc=dict(quick=["MC_Teardown_q"], thorough=["MC_Teardown", "MC_TeardownLive_q"]),
+        mc=dict(quick=["MC_Teardown_q"], thorough=["MC_Teardown", "MC_TeardownLive_q", "MC_Ka"]),
         needs=["AFault", "ADropMux", "TWd"],
-        sims=dict(quick=[("fault", 220, 80)], thorough=[("fault", 5000, 120), ("all", 1000, 160)]),
-        nontrivial=lambda r: r.get("ev") in ("fault", "drop_mux") or (r.get("ev") == "inject" and r.get("m", {}).get("op") == "close"),
-        rule="a trace counts when a transport fault, a peer Close or a drop of the Multiplexor was injected",
+        sims=dict(quick=[("fault", 220, 80), ("ka", 40, 70)], thorough=[("fault", 5000, 120), ("all", 1000, 160), ("ka", 1500, 90)]),
+        nontrivial=lambda r: r.get("ev") in ("fault", "drop_mux") or (r.get("ev") == "inject" and r.get("m", {}).get("op") == "close")
+                             or (r.get("ev") == "task" and r.get("res") == "keepalive"),
+        rule="a trace counts when a transport fault, a peer Close or a drop of the Multiplexor was injected, or the keepalive expired",
     ),
     "C10": dict(
         title="misbehaving peer",
@@ -108,7 +109,7 @@ INVARIANT_PROPERTY = {
 
 
 # the message a diverging (or panicking) task poll received tells which service the divergence is about
-RCV_PROPERTY = {"dgram": {"C11"}, "bind": {"C15"}, "connect": {"C07"}, "push": {"C02", "C03"}, "ack": {"C03", "C04"},
+RCV_PROPERTY = {"ping": {"C16"}, "pong": {"C16"}, "dgram": {"C11"}, "bind": {"C15"}, "connect": {"C07"}, "push": {"C02", "C03"}, "ack": {"C03", "C04"},
                 "finish": {"C05"}, "reset": {"C05", "C06"}, "junk": {"C10"}}
 
 
@@ -187,6 +188,8 @@ def attribute(f):
         props |= {"C08", "C04"}
     elif ev == "take":
         props |= {"C10"}
+    elif ev == "advance":
+        props |= {"C16"}
     elif ev == "task":
         sent = [(m.get("op"), m.get("id"), m.get("n"), m.get("len")) for m in u.get("sent", [])]
         cands = []
@@ -224,6 +227,9 @@ def attribute(f):
             props |= {"ack": {"C03", "C04"}, "push": {"C02", "C03", "C05"}, "reset": {"C06", "C10", "C05", "C07", "C03"},
                       "finish": {"C05", "C15", "C06"}, "connect": {"C07"}, "dgram": {"C11"}, "bind": {"C15"},
                       "close": {"C08"}, "ping": {"C16"}, "pong": {"C16"}}.get(op, set())
+        # a task that gives up (or should have given up) because of the keepalive
+        if res == "keepalive" or "keepalive" in exp_res:
+            props |= {"C16", "C08"}
         # the message this poll received tells which service the divergence is about
         rop = (u.get("rcv") or {}).get("op")
         props |= RCV_PROPERTY.get(rop, set())
@@ -328,7 +334,7 @@ def mux_check(prop, tier, seed, replay):
             if prop in ("C02", "C03", "C04", "C05", "C06", "C07", "C08", "C11", "C13", "C15"):
                 import tlc_sched
                 nb = 120 if tier == "quick" else 2500
-                scfg = {"C13": "MC_MuxSched_bridge.cfg", "C15": "MC_MuxSched_bind.cfg"}.get(prop, "MC_MuxSched.cfg")
+                scfg = {"C13": "MC_MuxSched_bridge.cfg", "C15": "MC_MuxSched_bind.cfg", "C11": "MC_MuxSched_dgram.cfg"}.get(prop, "MC_MuxSched.cfg")
                 if prop in ("C13", "C15"):
                     nb = 40 if tier == "quick" else 1200
                 # a different simulation seed per property: the checks of the family explore different behaviours
@@ -345,6 +351,21 @@ def mux_check(prop, tier, seed, replay):
                 transitions += nstates
                 mc_runs.append(dict(config="MC_MuxSched (simulation)", behaviours=nb, schedules=len(sch), states_generated=nstates))
                 batches.append(("tlc-sched", out))
+            # 2b'. C08: the keepalive as a cause -- specification behaviours in which time passes (MC_MuxSched_ka.cfg)
+            if prop == "C08":
+                import tlc_sched
+                sch, nstates = tlc_sched.schedules(40 if tier == "quick" else 800, 70, seed * 41 + 5, cfg="MC_MuxSched_ka.cfg")
+                if not sch:
+                    raise ToolError("TLC simulation produced no schedules (ka)")
+                sj = os.path.join(work, "tlc_sched_ka.json")
+                json.dump(sch, open(sj, "w"))
+                out = os.path.join(work, "tlc_sched_ka.ndjson")
+                rc, o = vlib.run([bin_path, "script", sj, out], timeout=3000)
+                if rc not in (0, 3):
+                    raise ToolError("mux_sim script failed on TLC-generated schedules (ka): " + o[-400:])
+                transitions += nstates
+                mc_runs.append(dict(config="MC_MuxSched_ka (simulation)", schedules=len(sch), states_generated=nstates))
+                batches.append(("tlc-sched-ka", out))
             # 2c. C08: fault enumeration -- every end-of-connection cause at every k-th prefix of fault-free
             #     specification behaviours, on each endpoint, followed by a run to quiescence
             if prop == "C08":
@@ -400,18 +421,21 @@ def mux_check(prop, tier, seed, replay):
         # C03 quantifies over every schedule: the race of a writer thread with the connection task granting credit cannot
         # occur in the hand-polled simulator; loom enumerates it on the real code and TLC validates every execution
         # (the machinery of C12); an execution in which credit is not conserved speaks about C03 as well
+        # C04 as well: a unit of credit lost in that race is never returned (the peer has acknowledged everything it
+        # consumed), so the writer ends up waiting for ever although the receiving application keeps reading
         loom_c03 = None
-        if prop == "C03" and not replay:
+        if prop in ("C03", "C04") and not replay:
             import fam_wake
-            n_exec, badrecs = fam_wake.credit_executions(tier, work)
+            n_exec, badrecs = fam_wake.credit_executions(tier, work, lost_only=(prop == "C04"))
             loom_c03 = dict(loom_executions=n_exec, credit_not_conserved=len(badrecs))
             evaluations += n_exec
             traces_ok += n_exec - len(badrecs)
             log(f"[loom] {n_exec} executions of the real writer / acknowledge race validated by TLC (WakeTrace), credit not conserved in {len(badrecs)}")
             for rec in badrecs[:5]:
                 path = vlib.save_replay(prop, "loom_" + str(rec.get("sc", "x")), [json.dumps(rec) + "\n"],
-                                        note="loom execution of the real code in which the credit is not conserved (WriterWakeDefs.Contract, first clause)")
-                violations.append((path, "credit not conserved in loom execution " + json.dumps(rec)))
+                                        note="loom execution of the real code in which the credit is not conserved (WriterWakeDefs.Contract, first clause)"
+                                        if prop == "C03" else "loom execution of the real code in which a unit of credit is lost or the waiting writer is not woken although it could proceed: the writer stalls")
+                violations.append((path, ("credit not conserved" if prop == "C03" else "credit lost / writer left sleeping") + " in loom execution " + json.dumps(rec)))
         wall = time.time() - t0
         # verdict
         for k in known_for(prop):
@@ -445,6 +469,59 @@ def mux_check(prop, tier, seed, replay):
         return 0
     finally:
         shutil.rmtree(work, ignore_errors=True)
+
+
+def ka_leg(tier, seed, work):
+    """C16, second leg: the keepalive inside the full multiplexor -- two real endpoints with streams and datagrams in use,
+    virtual time, a peer that is no longer polled from some point on (a dead peer behind a healthy transport), the Pong
+    produced by the transport of the real peer.  MC_Ka* (design), harness-random `ka` schedules and TLC-generated schedules
+    with time steps; every trace is validated against MuxTrace (PenguinMux.KaStep is the tick-based detector of the code).
+    Returns (model-checking runs, traces, accepted, failures that speak about C16 as (lines, description))."""
+    import tlc_sched
+    subprocess.run(["python3", os.path.join(vlib.VERIF, "tools", "gen_cfgs.py")], check=True, stdout=subprocess.DEVNULL)
+    bin_path = _sim_bin()
+    cfg = "MC_Ka_q" if tier == "quick" else "MC_Ka"
+    r = vlib.model_check("MC_Mux", cfg, workers=10, timeout=3000)
+    if not r["ok"]:
+        log(r["out"][-3000:])
+        raise ToolError(f"specification configuration {cfg} violates {r['violated']} (design-level counterexample: triage the specification)")
+    for a in ("TKa", "ATime"):
+        if r["coverage"].get(a, (0, 0))[1] == 0:
+            raise ToolError(f"vacuous run: action {a} never taken in {cfg}")
+    mc = [dict(config=cfg, distinct_states=r["distinct"], states_generated=r["states"], wall_s=round(r["wall"], 1))]
+    log(f"[mc] {cfg}: {r['distinct']} distinct states, {r['states']} generated, {r['wall']:.1f}s, all invariants hold")
+    batches = []
+    out = os.path.join(work, "ka_random.ndjson")
+    _gen(bin_path, "ka", seed * 7919 + 16, 120 if tier == "quick" else 4000, 80, out)
+    batches.append(("mux-ka", out))
+    sch, nstates = tlc_sched.schedules(40 if tier == "quick" else 1500, 70, seed * 43 + 16, cfg="MC_MuxSched_ka.cfg")
+    if not sch:
+        raise ToolError("TLC simulation produced no schedules (ka)")
+    sj = os.path.join(work, "ka_sched.json")
+    json.dump(sch, open(sj, "w"))
+    out2 = os.path.join(work, "ka_sched.ndjson")
+    rc, o = vlib.run([bin_path, "script", sj, out2], timeout=3000)
+    if rc not in (0, 3):
+        raise ToolError("mux_sim script failed on TLC-generated schedules (ka): " + o[-400:])
+    mc.append(dict(config="MC_MuxSched_ka (simulation)", schedules=len(sch), states_generated=nstates))
+    batches.append(("mux-ka-tlc", out2))
+    traces = accepted = exits = 0
+    fails = []
+    for mode, path in batches:
+        v = vlib.validate_batch("MuxTrace", "MuxTrace", path, timeout=3000)
+        traces += v["traces"]
+        accepted += v["accepted"]
+        for lines in v["all_lines"]:
+            if any('"res":"keepalive"' in l for l in lines):
+                exits += 1
+        log(f"[trace] mode={mode}: {v['traces']} traces, {v['accepted']} accepted by TLC, {len(v['failures'])} rejected")
+        for f in v["failures"]:
+            props = attribute(f)
+            if "C16" in props or not props:
+                fails.append((mode, f["lines"], vlib.describe_failure(f)))
+    if exits == 0:
+        raise ToolError("vacuous run: no keepalive expiry in the mux-level traces")
+    return mc, traces, accepted, exits, fails
 
 
 FAMILY = {p: mux_check for p in MUX}
